@@ -105,3 +105,42 @@ Proof.
   destruct (Nat.eqb x z); [intros H; right; exact H|].
   intros [<-|H]; [left; reflexivity|right; apply IH; exact H].
 Qed.
+
+Lemma NoDup_app_both {A} (l1 l2 : list A) : NoDup l1 -> NoDup l2 -> (forall x, In x l1 -> In x l2 -> False) -> NoDup (l1 ++ l2).
+Proof.
+  intros H1 H2 Hd. induction H1 as [|x l Hx Hn IH]; cbn; [exact H2|].
+  constructor.
+  - intros Hin. apply in_app_or in Hin. destruct Hin as [Hin|Hin]; [contradiction|]. apply (Hd x); [left; reflexivity|exact Hin].
+  - apply IH. intros y Hy Hy2. apply (Hd y); [right; exact Hy|exact Hy2].
+Qed.
+Lemma filter_all_true {A} (p : A -> bool) l : (forall x, In x l -> p x = true) -> filter p l = l.
+Proof.
+  induction l as [|x l IH]; intros H; cbn; [reflexivity|]. rewrite (H x (or_introl eq_refl)). f_equal. apply IH.
+  intros y Hy. apply H. right. exact Hy.
+Qed.
+Lemma filter_all_false {A} (p : A -> bool) l : (forall x, In x l -> p x = false) -> filter p l = [].
+Proof.
+  induction l as [|x l IH]; intros H; cbn; [reflexivity|]. rewrite (H x (or_introl eq_refl)). apply IH.
+  intros y Hy. apply H. right. exact Hy.
+Qed.
+Lemma remove_first_notin x l : ~ In x l -> remove_first x l = l.
+Proof.
+  induction l as [|y l IH]; intros H; cbn; [reflexivity|].
+  destruct (Nat.eqb x y) eqn:E; [apply Nat.eqb_eq in E; subst; exfalso; apply H; left; reflexivity|].
+  f_equal. apply IH. intros Hin. apply H. right. exact Hin.
+Qed.
+Lemma remove_first_app_r x l1 l2 : ~ In x l1 -> remove_first x (l1 ++ l2) = l1 ++ remove_first x l2.
+Proof.
+  induction l1 as [|y l IH]; intros H; cbn; [reflexivity|].
+  destruct (Nat.eqb x y) eqn:E; [apply Nat.eqb_eq in E; subst; exfalso; apply H; left; reflexivity|].
+  f_equal. apply IH. intros Hin. apply H. right. exact Hin.
+Qed.
+Lemma remove_first_filter x l : NoDup l -> remove_first x l = filter (fun y => negb (Nat.eqb y x)) l.
+Proof.
+  induction 1 as [|y l Hy Hn IH]; cbn; [reflexivity|].
+  destruct (Nat.eqb x y) eqn:E.
+  - apply Nat.eqb_eq in E. subst y. rewrite Nat.eqb_refl. cbn.
+    symmetry. apply filter_all_true. intros z Hz. destruct (Nat.eqb z x) eqn:Ez; [|reflexivity].
+    apply Nat.eqb_eq in Ez. subst. contradiction.
+  - rewrite Nat.eqb_sym, E. cbn. f_equal. exact IH.
+Qed.
